@@ -249,6 +249,9 @@ class MessagePackRpc(MessagePackDocument):
 
         else:
             msgtype, msgid, msgname_or_error, msgparams = ctx.in_document
+            if msgparams is None:
+                # a null parameter list is handled like an empty one
+                msgparams = []
 
         if not six.PY2:
             if isinstance(msgname_or_error, bytes):
